@@ -218,6 +218,7 @@ class Inliner(object):
     callee = self._callee(s.iter, fn)
     if callee is None or callee.key in stack or not self._simple(callee, s.iter, generator=True):
       return None
+    own_jumps = False
     for x in walk_no_nested(s, include_self=False):
       if isinstance(x, (ast.Break, ast.Continue)):
         # does it belong to s?
@@ -226,7 +227,9 @@ class Inliner(object):
           if isinstance(y, (ast.For, ast.While)) and any(z is x for z in ast.walk(y)):
             inner = True
         if not inner:
-          return None
+          own_jumps = True
+    if own_jumps and not _yield_ends_last_loop(callee.node):
+      return None
     ys = [x for x in walk_no_nested(callee.node, include_self=False) if isinstance(x, (ast.Yield, ast.YieldFrom))]
     stmt_ys = [st for st in walk_no_nested(callee.node, include_self=False) if isinstance(st, ast.Expr) and isinstance(st.value, ast.Yield)]
     if len(ys) != len(stmt_ys) or len(ys) > 2 or any(isinstance(y, ast.YieldFrom) for y in ys):
@@ -641,6 +644,23 @@ def _subst_flags(block):
   return changed
 
 
+def _yield_ends_last_loop(defnode):
+  """the generator is `<preamble>; for/while ...: <stmts>; yield v` with the single yield as the last statement of the body
+  of its last statement, a loop: a consumer's `continue` / `break` is then a `continue` / `break` of that loop."""
+  body = [st for st in defnode.body if not (isinstance(st, ast.Expr) and isinstance(st.value, ast.Constant))]
+  if not body or not isinstance(body[-1], (ast.For, ast.While)) or body[-1].orelse:
+    return False
+  loop = body[-1]
+  ys = [x for x in walk_no_nested(defnode, include_self=False) if isinstance(x, (ast.Yield, ast.YieldFrom))]
+  if len(ys) != 1:
+    return False
+  last = loop.body[-1]
+  if not (isinstance(last, ast.Expr) and last.value is ys[0]):
+    return False
+  # no return in the preamble that the consumer's break would have to skip ... returns are fine (tail rule applies)
+  return True
+
+
 def _delegation_call(s):
   """the generator call of `for x in <call>: yield x` or `yield from <call>`; None for any other statement."""
   if isinstance(s, ast.Expr) and isinstance(s.value, ast.YieldFrom) and isinstance(s.value.value, ast.Call):
@@ -661,9 +681,7 @@ def _sink_delegations(block):
   i = 0
   while i < len(out) - 1:
     d, u = out[i], out[i + 1]
-    if isinstance(u, ast.For) and isinstance(u.iter, ast.Name) and not u.orelse and isinstance(u.target, ast.Name) and \
-       len(u.body) == 1 and isinstance(u.body[0], ast.Expr) and isinstance(u.body[0].value, ast.Yield) and \
-       isinstance(u.body[0].value.value, ast.Name) and u.body[0].value.value.id == u.target.id:
+    if isinstance(u, ast.For) and isinstance(u.iter, ast.Name) and not u.orelse:
       x = u.iter.id
 
       def binds(st):
@@ -675,6 +693,14 @@ def _sink_delegations(block):
         lp.iter = call
         return lp
       uses_elsewhere = sum(1 for st in out for y in ast.walk(st) if isinstance(y, ast.Name) and y.id == x and isinstance(y.ctx, ast.Load))
+      # only calls that look like calls to helpers of this class / module are moved (a generator call runs nothing yet)
+      def movable(call):
+        f_ = call.func
+        return isinstance(f_, ast.Name) or (isinstance(f_, ast.Attribute) and isinstance(f_.value, ast.Name) and
+                                            f_.value.id in ('self', 'cls'))
+      if uses_elsewhere == 1 and binds(d) and not movable(d.value):
+        i += 1
+        continue
       if uses_elsewhere == 1 and binds(d):
         out[i:i + 2] = [loop_over(d.value)]
         continue
@@ -684,7 +710,7 @@ def _sink_delegations(block):
           if not br:
             return None
           lastst = br[-1]
-          if binds(lastst):
+          if binds(lastst) and movable(lastst.value):
             return br[:-1] + [loop_over(lastst.value)]
           if isinstance(lastst, ast.If) and lastst.orelse:
             b, e = sink(lastst.body), sink(lastst.orelse)
